@@ -240,6 +240,43 @@ def short(k):
     return mir.short(k)
 
 
+def value_cases(body, sym, bi, rv):
+    """The values a stored rvalue can take, each with the block that decides it: `x = if c { A } else { B }` stores a
+    temporary that is assigned in both arms; this returns [(arm block, A), (arm block, B)] so that a rule sees the
+    same cases as for `if c { x = A } else { x = B }`.  The same holds for `let m = match k { .. }; use(m)`.
+    A plain value gives [(bi, value)]."""
+    if rv.get("k") == "use":
+        p = op_place(rv["a"])
+        if p is not None and mir.is_local(p) and p["l"] > body.arg_count:
+            l = p["l"]
+            defs = body.defs().get(l, [])
+            if len(defs) == 1 and defs[0][2].get("k") == "use" and l not in body.names:
+                q = op_place(defs[0][2]["a"])
+                if q is not None and mir.is_local(q):
+                    return value_cases(body, sym, defs[0][0], defs[0][2])  # a copy of the variable into a temporary
+            if len(defs) >= 2 and all(d[2].get("k") != "partial" for d in defs) and l not in body.mut_borrowed_locals():
+                # assigned once per path: no definition can be followed by another one
+                blocks = [d[0] for d in defs]
+                once = len(set(blocks)) == len(blocks) and not any(
+                    o in body.reachable_from(d) for d in blocks for o in blocks)
+                if once:
+                    out = []
+                    for (db, di, drv) in defs:
+                        if drv.get("k") == "call":
+                            t = drv["t"]
+                            v = ("call", strip_generics(callee_name(t)), tuple(sym.operand(a) for a in t["args"]))
+                            out.append((db, v))
+                        else:
+                            out.extend(value_cases(body, sym, db, drv))
+                    return out
+    return [(bi, sym.rvalue(rv))]
+
+
+def operand_cases(body, sym, bi, op):
+    """value_cases for an operand (e.g. a call argument)."""
+    return value_cases(body, sym, bi, {"k": "use", "a": op})
+
+
 # ------------------------------------------------------------------------------- decision tables
 
 STD_VARIANTS = {"std::option::Option": ["None", "Some"], "std::result::Result": ["Ok", "Err"], "core::option::Option": ["None", "Some"]}
@@ -371,6 +408,12 @@ def constraints_for(ix, body, sym, block, _depth=0):
                 vals.append(names.get(v, v) if names else v)
         if t.get("discr_ty") == "bool":
             vals = [bool(v) != neg if isinstance(v, int) else v for v in vals]
+        # `o.is_some()` / `o.is_none()` is the discriminant test of `if let Some(..) = o` / `match o`
+        if e[0] == "call" and e[1] in ("std::option::Option::is_some", "std::option::Option::is_none") and len(e[2]) == 1 \
+                and vals and all(isinstance(v, bool) for v in vals) and len(set(vals)) == 1:
+            truth = next(iter(vals)) == e[1].endswith("is_some")
+            e = ("discr", mir.strip_refs(e[2][0]))
+            vals = ["Some" if truth else "None"]
         # discr(c.opposite()) in {White} is discr(c) in {Black} (Color::opposite's table is decided by C04)
         if e[0] == "discr":
             inner = mir.strip_copies(e[1])
